@@ -47,7 +47,7 @@ Definition check_case (c : bool * closure * (Z * Z * bool * bool)) : bool :=
   match closure_items cl with
   | None => negb (c1 =? 0)
   | Some l =>
-    match parse_items ap l with
+    match parse_closure ap cl with
     | POk st =>
       (c1 =? 0) &&
       match reparse_combined ap l with
